@@ -562,6 +562,9 @@ def rule_for(itype, cellname, entity_ct, md, argument_elements, integral_element
         if getattr(e, "has_custom_quadrature", False):
             p, w = e.custom_quadrature()
             return np.asarray(p, dtype=float), np.asarray(w, dtype=float), "custom(quadrature element)"
+    if (md.get("quadrature_rule") or "default") == "custom":
+        # user-supplied points/weights on the reference integration entity
+        return np.asarray(md["quadrature_points"], dtype=float), np.asarray(md["quadrature_weights"], dtype=float), "custom(metadata)"
     deg = md.get("quadrature_degree", -1)
     if deg is None or (isinstance(deg, (int, np.integer)) and deg < 0) or deg == "auto":
         deg = int(np.max(md["estimated_polynomial_degree"]))
